@@ -274,9 +274,9 @@ where
         let mut filtered_kmers = Vec::new();
         let mut removed = 0;
 
-        if filter_ambig_as_missing {
-            self.update_counts(true);
-        }
+        // Always recount: stored counts may have been saved by an earlier filter
+        // run with a different `filter_ambig_as_missing` setting
+        self.update_counts(filter_ambig_as_missing);
 
         for count_it in self
             .variant_count
